@@ -135,7 +135,7 @@ def run(prop, tier, seed, out):
                            "register / remove / remove-with-nodes / send / IsAny / thresholds / Reopen / node churn) run under the Go race detector; non-trivial = histories")
             cov["selftest_corrupted_histories_rejected"] = k
             cov["race_reports"] = len(races)
-            cov["samples"] = rep["samples"][:1]
+            cov["samples"] = (rep.get("samples") or [])[:1]
             out.assumptions += ["the Go race detector only sees executed interleavings", "sync.Map's documented per-key atomicity"]
             if len(ids) < 8:
                 raise Broken("too few histories")
